@@ -3,7 +3,7 @@ PROPS["C07"] = dict(
     props_file="Properties/C07.v",
     harnesses=[dict(cmd="node", mod="cmdmod", model="Model.NodeCases", quick=600, thorough=30000, shard=80,
                     preamble="Local Open Scope Z_scope. Local Open Scope string_scope.",
-                    require=["store.memory", "store.db", "store.fake", "fake.answer.eio", "fake.huge-id", "op.readlink", "op.fgetattr", "op.setfetched", "op.statlookup", "op.statgetattr", "op.statread", "op.openfail", "statread.err=true", "statread.err=false", "opaque.0", "opaque.1", "opaque.2", "node.root", "node.sub",
+                    require=["root.attached-as-child", "root.own-nodefs", "store.memory", "store.db", "store.fake", "fake.answer.eio", "fake.huge-id", "op.readlink", "op.fgetattr", "op.setfetched", "op.statlookup", "op.statgetattr", "op.statread", "op.openfail", "statread.err=true", "statread.err=false", "opaque.0", "opaque.1", "opaque.2", "node.root", "node.sub",
                              "op.readdir", "op.lookup", "op.forget", "op.getattr", "op.getxattr", "op.listxattr", "op.state",
                              "readdir.memo=false", "readdir.memo=true", "lookup.memo=false", "lookup.memo=true",
                              "lookup.miss.memoises", "lookup.registered", "lookup.node", "lookup.whiteout", "lookup.state", "register.state", "register.node", "register.whiteout", "lookup.errno2",
